@@ -271,7 +271,8 @@ Proof.
     pose proof (meta_publish_all_cfg (r_set_dealer r d) mps) as C. destruct (meta_publish_all _ mps). exact C.
   - destruct (call _ _ _ _ _ _ _ _ _ _ _) as [d o|o|d callee o].
     + reflexivity.
-    + pose proof (leave_cfg r (s_id s)) as C. destruct (leave r (s_id s)). exact C.
+    + match goal with |- context [leave ?R (s_id s)] => pose proof (leave_cfg R (s_id s)) as C; destruct (leave R (s_id s)) end.
+      exact C.
     + rewrite run_meta_invocation_cfg. destruct (update_session_frame (r_set_dealer r d) callee) as (E & _). exact E.
   - destruct (cancel _ _ _ _ _). reflexivity.
   - destruct (sync_yield _ _ _ _ _ _ _) as [d o]. destruct (yield_aborts _ _ _ _ _); [|reflexivity].
